@@ -15,6 +15,7 @@ pub mod c10;
 pub mod c11;
 pub mod c12;
 pub mod c14;
+pub mod c17;
 pub mod c19;
 pub mod c20;
 
@@ -32,9 +33,18 @@ const TABLE: &[(&str, RunFn, ReplayFn)] = &[
     ("C11", c11::run, c11::replay),
     ("C12", c12::run, c12::replay),
     ("C14", c14::run, c14::replay),
+    ("C17", c17::run, c17::replay),
     ("C19", c19::run, c19::replay),
     ("C20", c20::run, c20::replay),
 ];
+
+/// Case functions that run in isolated child processes (see isolate.rs).
+pub fn case_fn(pid: &str, part: &str) -> Option<crate::isolate::CaseFn> {
+    match (pid, part) {
+        ("C17", "graphs") => Some(c17::run_case),
+        _ => None,
+    }
+}
 
 /// Result of replaying one saved input.
 pub fn replay_value(pid: &str, v: &Value) -> Outcome {
